@@ -143,7 +143,7 @@ open Arith
 /-! ### the recipe-wide conversion, quantity by quantity -/
 
 /-- all quantities `ScaledRecipe::convert` visits, in the order it visits them -/
-def recipeQuantities (r : ScaledRecipe Rat) : List (SQuantity Rat) :=
+def recipeVisitedQuantities (r : ScaledRecipe Rat) : List (SQuantity Rat) :=
   r.ingredients.filterMap (·.quantity) ++ r.timers.filterMap (·.quantity) ++ r.inlineQuantities
 
 /-- what the conversion to system `to` does to one optional quantity of a recipe: nothing to an
@@ -194,9 +194,9 @@ theorem cvm_errors_filterMap {β : Type} (c : Converter Rat) (to : System) (f : 
 
 /-- the errors are those of the visited quantities, in order -/
 theorem cvm_recipe_errors (c : Converter Rat) (to : System) (r : ScaledRecipe Rat) :
-    (recipeConvert c to r).2 = (recipeQuantities r).flatMap (fun q => convErrors c to (some q)) := by
+    (recipeConvert c to r).2 = (recipeVisitedQuantities r).flatMap (fun q => convErrors c to (some q)) := by
   rw [(recipeConvert_spec c to r).2.2.2.2.2]
-  unfold recipeQuantities
+  unfold recipeVisitedQuantities
   rw [cvm_errors_filterMap c to (fun i : Ingredient (Value Rat) => i.quantity),
     cvm_errors_filterMap c to (fun t : Timer (Value Rat) => t.quantity)]
   simp [List.flatMap_def]
